@@ -20,6 +20,8 @@ func (fr *Frame) envHere(what string) *Env {
 	}
 	if fr.fn.Pkg != nil {
 		e.pkg = fr.fn.Pkg.Pkg
+	} else if fr.top.contract != nil {
+		e.pkg = fr.contractPkg(fr.top.contract)
 	}
 	return e
 }
@@ -108,6 +110,8 @@ func (fr *Frame) headerEnv(h *ssa.BasicBlock) *Env {
 	}
 	if fr.fn.Pkg != nil {
 		e.pkg = fr.fn.Pkg.Pkg
+	} else if fr.top.contract != nil {
+		e.pkg = fr.contractPkg(fr.top.contract)
 	}
 	return e
 }
